@@ -349,6 +349,30 @@ func dagRecI(n int, at ...int) *zoo.RecDagI {
 	return root
 }
 
+// embedded recursive structs (value, pointer, two levels, and a second recursion around them)
+func chainRecEmb(n int) *zoo.RecEmbInner {
+	var cur *zoo.RecEmbInner
+	for i := 0; i < n; i++ {
+		cur = &zoo.RecEmbInner{X: i, I: []interface{}{i, "s"}, Next: cur}
+		if i%4 == 1 {
+			cur.Kids = []zoo.RecEmbInner{{X: -i}}
+			cur.M = map[string]*zoo.RecEmbInner{"m": {X: 100 + i}}
+		}
+	}
+	return cur
+}
+
+func recEmbValues(n int) []any {
+	in := chainRecEmb(n)
+	if in == nil {
+		in = &zoo.RecEmbInner{}
+	}
+	two := &zoo.RecEmbTwo{Q: 1, RecEmbPtr: zoo.RecEmbPtr{S: "s", RecEmbInner: chainRecEmb(n / 2), Y: 2}}
+	two.T = &zoo.RecEmbTwo{Q: 2, RecEmbPtr: zoo.RecEmbPtr{S: "t"}}
+	return []any{zoo.RecEmbVal{RecEmbInner: *in, Y: n}, &zoo.RecEmbVal{RecEmbInner: *in, Y: n}, zoo.RecEmbPtr{S: "p", RecEmbInner: chainRecEmb(n), Y: 3}, zoo.RecEmbPtr{S: "nil"},
+		zoo.RecEmbDeep{RecEmbVal: zoo.RecEmbVal{RecEmbInner: *in, Y: 1}, Z: "z"}, two, []any{zoo.RecEmbVal{Y: 5}, &zoo.RecEmbPtr{RecEmbInner: chainRecEmb(2)}}, map[string]zoo.RecEmbVal{"k": {RecEmbInner: *in}}}
+}
+
 func chainIfaceFirst(n int) *zoo.RecIfaceFirst {
 	var cur *zoo.RecIfaceFirst
 	for i := 0; i < n; i++ {
@@ -671,6 +695,7 @@ func init() {
 					[]interface{}{chainRecB(d / 2), chainRecE(d / 2)}, map[string]interface{}{"a": chainRecC(d / 2), "b": nestedIface(d / 2)}, dagRec(d), dagRec(d + 1),
 					chainRecIP(d, 0), chainRecIP(d, 1), []interface{}{chainRecIP(d/2, 2), chainRecIP(minInt(d, 3), 3)},
 					dagRecI(d+2, 1, d/2, d-1), chainIfaceFirst(d), chainIfaceFirst(d + 2), chainIfaceFirstV(d)}
+				vals = append(vals, recEmbValues(d)...)
 				for i, x := range vals {
 					if !c.Cur(i, fmt.Sprintf("shapes=core\ndeep chain %T depth %d", x, d)) {
 						continue
